@@ -1072,6 +1072,7 @@ func stopWithPendingWill(r *monitor.Run) {
 
 func Run(r *monitor.Run) {
 	stopWithPendingWill(r)
+	stuckResumedConsumer(r)
 	willTimerVsResume(r)
 	refusedRequestV3(r)
 	stopDuringTeardown(r)
